@@ -171,9 +171,9 @@ func (c *shardedMap) ExpireAll(ctx context.Context) {
 	for i := range c.hashedBuckets {
 		b := &c.hashedBuckets[i]
 		b.Lock()
-		for h, v := range b.data {
-			v.E = startTS
-			b.data[h] = v
+		for _, v := range b.data {
+			// Entry may be concurrently read by a holder of pointer obtained before the lock.
+			atomic.StoreInt64(&v.E, startTS)
 			cnt++
 		}
 		b.Unlock()
@@ -209,7 +209,7 @@ func (c *shardedMap) deleteExpired(before time.Time) {
 
 		b.Lock()
 		for h, v := range b.data {
-			if v.E != 0 && v.E < beforeTS {
+			if e := atomic.LoadInt64(&v.E); e != 0 && e < beforeTS {
 				delete(b.data, h)
 			}
 		}
@@ -242,7 +242,8 @@ func (c *shardedMap) Walk(walkFn func(e Entry) error) (int, error) {
 		for _, v := range c.hashedBuckets[i].data {
 			b.RUnlock()
 
-			err := walkFn(v)
+			// Expiration and usage counter can be updated concurrently, walkFn receives a copy.
+			err := walkFn(TraitEntry{K: v.K, V: v.V, E: atomic.LoadInt64(&v.E), C: atomic.LoadInt64(&v.C)})
 			if err != nil {
 				return n, err
 			}
